@@ -12,7 +12,7 @@
    elements are covered by implementation-side birth / drop counters; the two zero-sized branches
    that were defective (Drain::drop, alloc_slice_fill) are modelled in both versions. *)
 From Coq Require Import List Permutation.
-From BS Require Import Colls CollsProofs.
+From BS Require Import Colls CollsProofs Parts PartsProofs.
 Import ListNotations.
 
 Theorem C06_conserved_implies_exactly_once :
@@ -111,6 +111,17 @@ Proof. exact map_keeps_all_or_nothing. Qed.
 Theorem C06_dedup_by_key : forall key dp l, conserved (op_dedup_by_key key dp l) l.
 Proof. exact dedup_by_key_conserved. Qed.
 
+(* partition (partition_in_place: the find / rfind / swap loop of the code, then split_at): never panics and hands
+   every element to exactly one of the two parts - nothing lost, nothing duplicated, whatever the predicate answers *)
+Theorem C06_partition_conserves :
+  forall (A : Type) (p : A -> bool) (l : list A),
+  let r := op_partition p l in
+  pr_panic r = false /\ Permutation l (pr_first r ++ pr_second r).
+Proof.
+  intros A p l. pose proof (op_partition_spec p l) as H. cbv zeta in H |- *.
+  destruct H as (H1 & H2 & _). split; assumption.
+Qed.
+
 Print Assumptions C06_conserved_implies_exactly_once.
 Print Assumptions C06_truncate.
 Print Assumptions C06_pop.
@@ -139,3 +150,4 @@ Print Assumptions C06_resize.
 Print Assumptions C06_map.
 Print Assumptions C06_map_all_or_nothing.
 Print Assumptions C06_dedup_by_key.
+Print Assumptions C06_partition_conserves.
